@@ -22,6 +22,9 @@ if "tokenizer" in sections or len(sys.argv) == 1:
 if "cursor" in sections or len(sys.argv) == 1:
     from rules import c05
     tab["cursor"] = c05.cursor_table(prog)
+if "writer" in sections or len(sys.argv) == 1:
+    from rules import writertab
+    tab["writer"] = writertab.table(prog)
 if "limits" in sections:
     from rules import c12
     tab["limits"] = c12.limits_table(prog)
